@@ -107,6 +107,7 @@ def run(ctx):
     ctx.rule("R5.endpoint-exclusivity", "endpoint types: Send (payload Send), never Sync", floor=6)
     ctx.rule("R6.exhaustive-switch", "switches on a state value handle exactly the protocol's values for that point; other values diverge", floor=7)
     ctx.rule("R7.transition-table", "atomic operations on the state byte per function equal the protocol table (operation and constant operands)", floor=8)
+    ctx.rule("R9.transition-on-every-path", "the sender's set / drop and the receiver's cancel perform a state transition (RMW or store) on every normal path: no exit leaves the peer waiting on a state that will never change", floor=3)
     ctx.rule("R8.acquire-before-payload-read", "every call of the payload read is reached with the last state read acquire-ish or fenced", floor=5)
 
     fn = {b.name: b for b in prog.bodies if b.key.startswith(EV) and not b.is_closure}
@@ -117,6 +118,16 @@ def run(ctx):
         return
     for b in fn.values():
         ctx.fn(b)
+
+    # ---------------- R9
+    for name in ("set", "sender_dropped_without_set", "final_poll"):
+        b = fn.get(name)
+        if b is None:
+            continue
+        rmw = [e["bb"] for e in atomic_events(b) if e["field"] and e["field"].endswith(STATE) and e["op"] not in ("load",)]
+        pc = path_count(b, rmw)
+        ctx.ob("R9.transition-on-every-path", name, bool(rmw) and pc[0] >= 1, b.loc(),
+               f"state transitions (swap/CAS/store) per normal path (min,max)={pc}")
 
     # ---------------- R7 transition table
     for name, b in sorted(fn.items()):
